@@ -76,6 +76,12 @@ def tasks(tier, seed):
                 for shifted in (False, True):
                     if k < nf:
                         T.append(('restr', nf, nc, k, periodic, shifted))
+    # restriction order different from the interpolation order, order 0 = injection (1-D and the n-D Kronecker branch)
+    for periodic, (nf, nc) in ((True, (8, 4)), (False, (7, 3)), (True, (16, 8))):
+        for dim in (1, 2):
+            for io, ro in ((2, 0), (4, 0), (4, 2)):
+                if nf**dim <= 300 and not (periodic and nc <= max(io, ro)):
+                    T.append(('restrorder', nf, nc, io, ro, periodic, dim))
     for nf, nc in (((8, 4), (16, 8)) if quick else ((8, 4), (16, 8), (32, 16), (12, 6))):
         T.append(('ffttransfer', nf, nc, 1))
     for nf, nc in (((8, 4),) if quick else ((8, 4), (16, 8))):
@@ -91,6 +97,8 @@ def run_task(rep, task):
         space_case(rep, *task[1:])
     elif task[0] == 'restr':
         restr_case(rep, *task[1:])
+    elif task[0] == 'restrorder':
+        restrorder_case(rep, *task[1:])
     elif task[0] == 'ffttransfer':
         fft_transfer_case(rep, *task[1:])
     elif task[0] == 'nocoarse':
@@ -397,6 +405,54 @@ def restr_case(rep, nf, nc, k, periodic, shifted):
             rep.unreproduced(f'{name}/row{i}', dev)
     rep.extra['restr_rows_skipped_for_ties'] = rep.extra.get('restr_rows_skipped_for_ties', 0) + skipped
     rep.sample({'case': name, 'free': 'fine grid data in the unit box'}, limit=2)
+
+
+def restrorder_case(rep, nf, nc, iorder, rorder, periodic, dim):
+    """restriction with its own order: order 0 is injection (the coincident fine value, factor 1), order r > 0 is 0.5^dim times the transpose of the
+    order-r interpolation (taken from a second real transfer object whose interpolation is checked against the Lagrange rule elsewhere)"""
+    name = f'restrorder/{nf}-{nc}/i{iorder}/r{rorder}/{"periodic" if periodic else "dirichlet"}/dim{dim}'
+    fp, cp = GridProb(nf, periodic, dim), GridProb(nc, periodic, dim)
+    T = mesh_to_mesh(fp, cp, {'periodic': periodic, 'equidist_nested': True, 'iorder': iorder, 'rorder': rorder})
+    Rd = np.asarray(T.Rspace.todense(), dtype=float)
+    T.Pspace, T.Rspace = sp.DenseDot(np.asarray(T.Pspace.todense(), dtype=float)), sp.DenseDot(Rd)
+    Nf, Nc = nf**dim, nc**dim
+    fv = [z3.Real(f'f{j}') for j in range(Nf)]
+    Fm = mesh(fp.init)
+    Fm[:] = np.array([SymReal(v) for v in fv], dtype=object).reshape(Fm.shape)
+    Gr = np.asarray(T.restrict(Fm)).reshape((nc,) * dim)
+    tol = rv(Fraction(1, 10**12))
+    goal = []
+    if rorder == 0:
+        Fv = np.array(fv, dtype=object).reshape((nf,) * dim)
+        for idx in itertools.product(range(nc), repeat=dim):
+            fi = tuple((2 * j if periodic else 2 * j + 1) for j in idx)  # the fine point that coincides with the coarse point
+            goal += [R(Gr[idx]) - Fv[fi] <= tol, Fv[fi] - R(Gr[idx]) <= tol]
+        spec_R = None
+    else:
+        T2 = mesh_to_mesh(fp, cp, {'periodic': periodic, 'equidist_nested': True, 'iorder': rorder, 'rorder': rorder})
+        spec_R = np.asarray(T2.Pspace.todense(), dtype=float).T / 2**dim
+        Gf = Gr.ravel()
+        for j in range(Nc):
+            spec = sum((rv(spec_R[j, i]) * fv[i] for i in range(Nf) if spec_R[j, i] != 0), rv(0))
+            goal += [R(Gf[j]) - spec <= tol, spec - R(Gf[j]) <= tol]
+    res, m = prove(z3.And(goal), box(fv), timeout_ms=120000, name=f'{name}:restriction-of-its-own-order')
+    rep.ob(f'{name}:restriction-of-its-own-order', res)
+    if res == 'sat':
+        rep.replayed += 1
+        if rorder == 0:
+            sel = np.zeros((Nc, Nf))
+            for jj, idx in enumerate(itertools.product(range(nc), repeat=dim)):
+                fi = tuple((2 * j if periodic else 2 * j + 1) for j in idx)
+                sel[jj, int(np.ravel_multi_index(fi, (nf,) * dim))] = 1.0
+            dev = float(np.abs(Rd - sel).max())
+        else:
+            dev = float(np.abs(Rd - spec_R).max())
+        if dev > 1e-12:
+            rep.violation(f'{PID}/space-transfer/restriction-order/{"injection" if rorder == 0 else "transpose"}/dim{dim}', f'{name}: the restriction matrix deviates from ' + ('injection' if rorder == 0 else f'0.5^{dim} x the transpose of the order-{rorder} interpolation') + f' by {dev:.3e}',
+                          {'task': ['restrorder', nf, nc, iorder, rorder, periodic, dim], 'deviation': dev})
+        else:
+            rep.unreproduced(name, dev)
+    rep.sample({'case': name, 'free': f'{Nf} fine values in the unit box'}, limit=2)
 
 
 def fft_transfer_case(rep, nf, nc, dim):
